@@ -1,4 +1,5 @@
 #include "genlib.h"
+#include <string.h>
 #include "lib/ext_header.c"
 #include "lib/lha_file_header.c"
 #include "lib/lha_input_stream.c"
@@ -49,6 +50,27 @@ int main(void)
 		printf("]\ndef sfxIdAmiga : List Nat := [");
 		for (i = 0; b[i]; ++i) printf("%s%u", i ? ", " : "", (unsigned char) b[i]);
 		printf("]\n");
+	}
+		{
+		// os9_to_unix_permissions evaluated for every 16-bit OS-9 permission word: the table over the low byte, and whether the
+		// high byte is ignored (so that the 256-entry table is the whole function)
+		unsigned int p, ignored = 1, flag = 1;
+		static unsigned int tab[65536];
+		for (p = 0; p < 65536; ++p) {
+			LHAFileHeader h;
+			memset(&h, 0, sizeof(h));
+			h.os9_perms = (uint16_t) p;
+			os9_to_unix_permissions(&h);
+			tab[p] = h.unix_perms;
+			flag = flag && (h.extra_flags == LHA_FILE_UNIX_PERMS);
+		}
+		for (p = 0; p < 65536; ++p) ignored = ignored && tab[p] == tab[p & 0xff];
+		printf("/-- `os9_to_unix_permissions` of lib/lha_file_header.c for the permission words 0..255 -/\n");
+		printf("def os9ToUnixTable : List Nat := [");
+		for (p = 0; p < 256; ++p) printf("%s%s%u", p ? "," : "", p % 16 == 0 ? "\n  " : " ", tab[p]);
+		printf("]\n");
+		GEN_NAT("os9HighByteIgnored", ignored);
+		GEN_NAT("os9SetsUnixPermsFlagOnly", flag);
 	}
 	return 0;
 }
